@@ -362,6 +362,7 @@ def s1_zeroize():
         yield 'zeroize/enum1/' + tag, en('E', [variant('A', 'Unnamed', unnamed(1, [['T']]))], [dw(ts)])
         yield 'zeroize/enum_unit/' + tag, en('E', [variant('A', 'Unnamed', unnamed(1, [['T']])), variant('B'), variant('C', 'Named', [])], [dw(ts)])
         yield 'zeroize/enum_skip/' + tag, en('E', [variant('A', 'Unnamed', unnamed(1, [['T']], [sk])), variant('B', 'Named', named(2, [['T'], ['u8']], [[], sk]))], [dw(ts)])
+        yield 'zeroize/enum_skip_all/' + tag, en('E', [variant('A', 'Unnamed', unnamed(1, [['T']], [sk])), variant('B', 'Named', named(2, [['T'], ['u8']], [sk, [sub('skip')] if 'Debug' in ts else sk])), variant('C')], [dw(ts)])
         yield 'zeroize/bound/' + tag, st('S', named(1, [['T']]), [dw(ts, ['T'])], gen=generics([tparam('T'), tparam('U')]))
         if 'Zeroize' in ts:
             yield 'zeroize/fqs/' + tag, st('S', named(2, [['T'], ['u8']], [fq, []]), [dw(ts)])
